@@ -25,6 +25,7 @@ var (
 	fOut    = flag.String("sim.out", "", "output file (JSON lines)")
 	fReplay = flag.String("sim.replay", "", "replay file")
 	fBudget = flag.Duration("sim.budget", 0, "wall-clock budget; stop starting new runs after it")
+	fMaxMem = flag.Int("sim.maxmem", 0, "MiB of heap after which the worker hands over to a fresh process (runs that end with goroutines blocked for ever in channel operations cannot be freed)")
 	fOpts   = flag.String("sim.opts", "", "k=v,k=v world options")
 	fLog    = flag.Bool("sim.log", false, "record the schedule log")
 	fKeep   = flag.Int("sim.keep", 3, "number of sample descriptions to keep per worker")
@@ -145,6 +146,15 @@ func TestWorker(t *testing.T) {
 	for i := *fFrom; i < *fTo; i += *fStride {
 		if *fBudget > 0 && time.Since(start) > *fBudget {
 			break
+		}
+		if *fMaxMem > 0 && n > 0 && n%256 == 0 {
+			var ms runtime.MemStats
+			runtime.ReadMemStats(&ms)
+			if ms.HeapInuse+ms.StackInuse > uint64(*fMaxMem)<<20 {
+				// hand over: the driver starts a fresh process at index i
+				os.WriteFile(*fOut+".next", []byte(fmt.Sprintf("%d %d", i, int64(time.Since(start)))), 0o644)
+				break
+			}
 		}
 		spec := RunSpec{Prop: *fProp, Tier: *fTier, Seed: *fSeed, Index: i, Opts: opts, Log: *fLog}
 		res := Execute(t, spec)
